@@ -611,6 +611,82 @@ impl Ctx<'_> {
     }
 }
 
+impl Ctx<'_> {
+    /// bool-valued compounds over comparisons (`!(a < b)`, `!(!(a <= b))`, `(a < b) == (b > a)`, `(a < b) || (a >= b)` ...):
+    /// with a NaN operand a negated comparison is not the opposite comparison, and `<` / `>=` are not complements
+    fn check_comparison_compounds(&mut self, ty: &str, a: Variable, b: Variable, la: Option<String>, lb: Option<String>, cmp: &dyn Fn(&str) -> bool) {
+        let ops = ["==", "!=", "<", "<=", ">", ">="];
+        let shown = (format!("{a:?}"), format!("{b:?}"));
+        for op in ops {
+            let r = cmp(op);
+            let mut cases: Vec<(String, bool)> = vec![
+                (format!("!(a {op} b)"), !r),
+                (format!("!(!(a {op} b))"), r),
+                (format!("(a {op} b) == true"), r),
+                (format!("false == (a {op} b)"), !r),
+                (format!("(a {op} b) != (a {op} b)"), false),
+                (format!("!(a {op} b) && !(b {op} a)"), !r && !{
+                    // b op a
+                    let swapped = match op { "<" => ">", "<=" => ">=", ">" => "<", ">=" => "<=", o => o };
+                    cmp(swapped)
+                }),
+            ];
+            for op2 in ops {
+                let r2 = cmp(op2);
+                cases.push((format!("(a {op} b) || (a {op2} b)"), r || r2));
+                cases.push((format!("(a {op} b) && (a {op2} b)"), r && r2));
+                cases.push((format!("(a {op} b) ^ (a {op2} b)"), r ^ r2));
+                cases.push((format!("(a {op} b) == (a {op2} b)"), r == r2));
+            }
+            for (text, want) in cases {
+                let exp = Exp::Bool(want);
+                if let Some(f) = self.funcs.get(&format!("{ty} cmpx {text}"), || format!("(a: {ty}, b: {ty}) -> bool {{ return {text} }}")) {
+                    let out = call(&f, vec![a.clone(), b.clone()]);
+                    self.rep.evaluations += 1;
+                    self.rep.count("form_comparison_compound");
+                    if let Err(why) = judge(&exp, &out) {
+                        self.fail("comparison-compound", ty, &truncate(&text, 40), &shown.0, &shown.1, &format!("{why} [(a: {ty}, b: {ty}) -> bool {{ return {text} }}]"));
+                    }
+                }
+                // a read from a cell on the left, a constant on the right (and the other way round), and all constant
+                if let (Some(la), Some(lb)) = (&la, &lb) {
+                    for (form, src) in [
+                        ("comparison-compound-cell", format!("ca := mut {la}; b := {lb}; {}", {
+                            // every standalone identifier `a` becomes a read of the cell
+                            let mut out = String::new();
+                            let mut word = String::new();
+                            for ch in text.chars().chain(std::iter::once(' ')) {
+                                if ch.is_ascii_alphabetic() {
+                                    word.push(ch);
+                                } else {
+                                    if word == "a" {
+                                        out.push_str("(*ca)");
+                                    } else {
+                                        out.push_str(&word);
+                                    }
+                                    word.clear();
+                                    out.push(ch);
+                                }
+                            }
+                            out
+                        })),
+                        ("comparison-compound-constant", format!("a := {la}; b := {lb}; {text}")),
+                    ] {
+                        if self.half {
+                            let out = real::parse_exec(&src, false);
+                            self.rep.evaluations += 1;
+                            self.rep.count("form_comparison_compound");
+                            if let Err(why) = judge(&exp, &out) {
+                                self.fail(form, ty, &truncate(&text, 40), &shown.0, &shown.1, &format!("{why} [{src}]"));
+                            }
+                        }
+                    }
+                }
+            }
+        }
+    }
+}
+
 fn random_int(rng: &mut Rng, op: &str) -> (i64, i64) {
     let a = match rng.below(3) {
         0 => *rng.pick(&INT_BOUNDARY),
@@ -754,6 +830,40 @@ pub fn run(cfg: &Cfg, rep: &mut Report) {
                 if cfg.owns(cell2) {
                     ctx.check_float_compound(&x, a, b);
                 }
+            }
+        }
+    }
+    // bool-valued compounds over comparisons on the same small grids
+    ctx.half = true;
+    for a in floats {
+        for b in floats {
+            cell2 += 1;
+            if cfg.owns(cell2) {
+                let cmp = |op: &str| match op {
+                    "==" => a == b,
+                    "!=" => a != b,
+                    "<" => a < b,
+                    "<=" => a <= b,
+                    ">" => a > b,
+                    _ => a >= b,
+                };
+                ctx.check_comparison_compounds("float", Variable::Float(a), Variable::Float(b), Some(crate::ast::float_text(a)), Some(crate::ast::float_text(b)), &cmp);
+            }
+        }
+    }
+    for a in ints {
+        for b in ints {
+            cell2 += 1;
+            if cfg.owns(cell2) {
+                let cmp = |op: &str| match op {
+                    "==" => a == b,
+                    "!=" => a != b,
+                    "<" => a < b,
+                    "<=" => a <= b,
+                    ">" => a > b,
+                    _ => a >= b,
+                };
+                ctx.check_comparison_compounds("int", Variable::Int(a), Variable::Int(b), Some(int_lit(a)), Some(int_lit(b)), &cmp);
             }
         }
     }
